@@ -177,7 +177,6 @@ def run_case(flags, width, prec, ctx, tier):
 
 def run_item(item):
     tier = item["tier"]
-    indices = QUICK_IDX if tier == "quick" else THOROUGH_IDX
     nctx = 2 if tier == "quick" else 4
     w, p = item["width"], item["prec"]
     violations, states, nontrivial, outcomes = [], set(), set(), {}
